@@ -42,6 +42,23 @@ const FA: &str = "did:iota:0xaaaaaaaaaaaaaaaaaaaaaaaaaaaaaaaaaaaaaaaaaaaaaaaaaaa
 const FB: &str = "did:example:foreign-b";
 
 thread_local! {
+  /// rotation of the case being run: which real relationships play "embedded in", "referenced from", "foreign reference
+  /// in"; which metadata travels with the document
+  static ROT: std::cell::Cell<usize> = const { std::cell::Cell::new(0) };
+}
+const RELS: [MethodRelationship; 5] = [
+  MethodRelationship::Authentication,
+  MethodRelationship::AssertionMethod,
+  MethodRelationship::KeyAgreement,
+  MethodRelationship::CapabilityDelegation,
+  MethodRelationship::CapabilityInvocation,
+];
+const REL_JSON: [&str; 5] = ["authentication", "assertionMethod", "keyAgreement", "capabilityDelegation", "capabilityInvocation"];
+fn rot() -> usize {
+  ROT.with(|r| r.get())
+}
+
+thread_local! {
   /// the realisation of the foreign IOTA DID "fa" for the case being run
   static FA_NOW: std::cell::RefCell<String> = std::cell::RefCell::new(FA.to_string());
 }
@@ -93,6 +110,9 @@ fn build(d: &Value, own: &IotaDID) -> Result<IotaDocument, String> {
   let mut doc = IotaDocument::new_with_id(own.clone());
   doc.metadata.created = Some(Timestamp::from_unix(1_650_000_000).unwrap());
   doc.metadata.updated = Some(Timestamp::from_unix(1_660_000_000).unwrap());
+  // everything in the metadata travels (only the two ledger address fields are excepted by the property)
+  doc.metadata.deactivated = [None, Some(false), Some(true)][(rot() / 5) % 3];
+  let custom_metadata = (rot() / 15) % 2 == 1;
   // fixed order BY ROLE so that a rebased document lists its controllers in the same order
   let mut ctrl_tags: Vec<&str> = arr(&d["ctrl"]).iter().map(s).collect();
   ctrl_tags.sort_by_key(|t| label(t).to_string());
@@ -109,14 +129,14 @@ fn build(d: &Value, own: &IotaDID) -> Result<IotaDocument, String> {
   for p in arr(&d["embedded"]) {
     let (i, c) = (s(&arr(p)[0]), s(&arr(p)[1]));
     let m = method(&did_of(i, own), &did_of(c, own), &format!("emb-{}-{}", label(i), label(c)));
-    doc.insert_method(m, MethodScope::authentication()).map_err(|e| e.to_string())?;
+    doc.insert_method(m, MethodScope::VerificationRelationship(RELS[rot() % 5])).map_err(|e| e.to_string())?;
   }
   let mut refs: Vec<String> = arr(&d["refs"]).iter().map(|t| s(t).to_string()).collect();
   refs.sort();
   for r in &refs {
     if r == "self" || r == "t" {
       doc
-        .attach_method_relationship(&did_of("self", own).to_url().join("#vm-own-own").unwrap(), MethodRelationship::AssertionMethod)
+        .attach_method_relationship(&did_of("self", own).to_url().join("#vm-own-own").unwrap(), RELS[(rot() + 1) % 5])
         .map_err(|e| e.to_string())?;
     }
   }
@@ -136,8 +156,14 @@ fn build(d: &Value, own: &IotaDID) -> Result<IotaDocument, String> {
   if refs.iter().any(|r| r == "fb") {
     // a reference to a method of another document can only come from deserialisation
     let mut v: Value = serde_json::from_str(&doc.to_json().map_err(|e| e.to_string())?).unwrap();
-    v["doc"]["keyAgreement"] = json!([format!("{FB}#key-9")]);
+    v["doc"][REL_JSON[(rot() + 2) % 5]] = json!([format!("{FB}#key-9")]);
     doc = IotaDocument::from_json_value(v).map_err(|e| format!("reference document rejected: {e}"))?;
+  }
+  if custom_metadata {
+    // further metadata properties exist only in the serialised form
+    let mut v: Value = serde_json::from_str(&doc.to_json().map_err(|e| e.to_string())?).unwrap();
+    v["meta"]["customMetadata"] = json!({"n": [1, 2, 3], "mentions": fa_now()});
+    doc = IotaDocument::from_json_value(v).map_err(|e| format!("document with custom metadata rejected: {e}"))?;
   }
   Ok(doc)
 }
@@ -178,6 +204,7 @@ fn run(case: &Value, variant: usize) -> Vec<(String, Value, Value)> {
   let mut diffs = Vec::new();
   let n = names(variant);
   choose_fa(&n, variant);
+  ROT.with(|r| r.set(variant / 2 + variant % 7));
   let original = match build(&case["doc"], &n.self_did) {
     Ok(d) => d,
     Err(e) => {
